@@ -374,20 +374,22 @@ def gen_tables(repo, changed, manifest):
             L.append(f"def ebind{z} : List (List Nat) := [\n  " + ",\n  ".join("[" + ", ".join(sc(v, SC_EBIND) for v in r) + "]" for r in e) + "]")
         L.append("end Gen")
         write(f"Shell{ci}.lean", "\n".join(L) + "\n", changed)
-    # DR tables through the package's own parser
+    # DR tables: read from the data files by an independent reader (csv module, columns addressed by their header names), NOT through
+    # the package's own loader — `utils.load_dr_data/_parse_dr_file` and `Element.get` are then validated against these tables by the
+    # correspondence check (`drtab`), so a change to the loading code cannot silently change model and implementation together
     sys.path.insert(0, repo)
-    import numpy as np
-    from ebisim.utils import _parse_dr_file
+    import numpy as np, csv
     nrows = 0
     drtxt = {}
     for z in zs_all:
         p = f"{repo}/ebisim/resources/drdata/DR_{z}.csv"
+        rows = []
         if os.path.exists(p):
-            with open(p) as f:
-                d = _parse_dr_file(f)
-            rows = list(zip(d["dr_cs"], d["dr_e_res"], d["dr_strength"]))
-        else:
-            rows = []
+            with open(p, newline="") as f:
+                rd = csv.DictReader(f)
+                for rec in rd:
+                    if not any((v or "").strip() for v in rec.values()): continue
+                    rows.append((int(rec["CHARGE_STATE"]), float(rec["DELTA_E_AI"]), float(rec["RECOMB_STRENGTH"])))
         nrows += len(rows)
         for c, e, s_ in rows:
             if int(c) != c or c < 0:
